@@ -138,6 +138,8 @@ def strategy(draw):
                                 "p2p3": draw(st.floats(0.2, 3.0)), "p4p3": draw(st.floats(0.2, 3.0))})
             case["Bmag"] = draw(st.floats(2.0, 10.0))
             case["ne"], case["te"] = draw(st.floats(1e18, 1e20)), draw(st.floats(1.0, 100.0))
+    if cls in ZEEMAN:
+        case["polseq"] = draw(st.lists(st.sampled_from(["no", "pi", "sigma"]), min_size=2, max_size=5))
     return case
 
 
@@ -635,6 +637,24 @@ def run(case, ctx):
             s_sg = add(build(case, "sigma"), case, Rr, wmin, wmax, bins)
         ctx.close((s_pi + s_sg) * d, s_no * d, "pi+sigma=no", rtol=0, atol=(1e-9 * Rr if not stark else 3 * st_tol))
         ctx.label("pi+sigma")
+        # (5b) one model object whose polarisation is switched through its public property, at an unchanged plasma state: after
+        # every switch it answers as a model constructed with that polarisation (bit for bit: the arithmetic is the same)
+        seq = case.get("polseq") or ["pi", "sigma", "no", "pi"]
+        fresh = {"no": s_no, "pi": s_pi, "sigma": s_sg}
+        with ctx.cut("construct"):
+            bsw = build(case, seq[0])
+        for step, p_ in enumerate(seq):
+            with ctx.cut("polarisation-setter"):
+                if step:
+                    bsw.model.polarisation = p_
+                got_p = bsw.model.polarisation
+                ssw = add(bsw, case, Rr, wmin, wmax, bins)
+            ctx.check(got_p == p_, "polarisation-switch", lambda: "polarisation reads %r after %r was assigned" % (got_p, p_))
+            ctx.check(np.array_equal(ssw, fresh[p_]), "polarisation-switch",
+                      lambda: "after the switches %r the spectrum differs from that of a model constructed with polarisation %r: "
+                      "integral %r vs %r (x bin width: max diff %r)" % (seq[:step + 1], p_, float(ssw.sum() * d), float(fresh[p_].sum() * d),
+                                                                        float(np.max(np.abs(ssw - fresh[p_])) * d)))
+        ctx.label("pol-switch")
 
     # (6) linearity and a zero radiance
     with ctx.cut("add_line"):
